@@ -36,6 +36,9 @@ func scenarioExprsW(thorough bool, wf int) []string {
 	for _, s := range []string{
 		"sort_by(`[3,1,2]`, &@)", "sort(`[3,1,2]`)", "reverse(`[1,2,3]`)", "merge(`{\"a\":1}`, @)", "`[3,1,2]`[::-1]", "sort_by(`[{\"k\":2},{\"k\":1}]`, &k)",
 		"max_by(`[{\"k\":2},{\"k\":1}]`, &k)", "`[3,1,2]`", "`{\"b\":[2,1]}`.b", "to_array(`[3,1,2]`)", "map(&@, `[3,1,2]`)", "`[[3,1],[2]]`[]", "not_null(`null`, `[2,1]`)",
+		"`[3,1,2]` | [@[0], sort_by(@, &@)[0]]", "`[[3,1,2]]` | [0] | [@[0], sort_by(@, &@)[0], @[0]]", "`{\"a\":[2,1]}`.a | [@[0], sort(@)[0], reverse(@)[0], @[0]]",
+		"`[3,1,2]` | [@[0], sort(@)[0]]", "`[3,1,2]` | [@[0], reverse(@)[0]]", "`[3,1,2]` | [@[0], max_by(@, &@)]", "`[{\"k\":2},{\"k\":1}]` | [@[0].k, sort_by(@, &k)[0].k]", "`[3,1,2]` | [@[0], to_array(@)[0], map(&@, @)[0]]",
+		"[a[0], sort_by(a, &k)[0], a[0]]", "[@[0], sort_by(@, &@)[0], @[0]]", "[a[0], sort(a)[0], reverse(a)[0], a[0]]",
 		"sort_by(@, &@)", "sort_by(a, &@)", "sort_by(a, &k)", "sort_by(b, &k)", "max_by(a, &k)", "min_by(a, &@)", "sort(a)", "reverse(a)", "map(&k, a)", "keys(@)", "values(@)", "*", "*.a",
 		"a[?k > `1`]", "a[*].k", "a[].k", "merge(@, @)", "join(',', b)", "length(a)", "a | sort_by(@, &k) | [0]", "[a, b]", "{x: a, y: b}", "abs(a)", "nosuch(a)", "a[::0]", "a[::-1]", "to_string(@)",
 		"contains(a, `1`)", "avg(a)", "sum(a)", "max(a)", "min(a)", "type(a)", "not_null(a, b)", "to_number(a)", "starts_with(a, b)", "a.b.c", "a[0]", "a[-1]", "a || b", "a && b", "!a", "a == b", "a < b", "@", "'raw'", "`1`",
@@ -220,11 +223,15 @@ func workC13(c *shardCtx) {
 					} else {
 						c.res.Capped = "more than 64 reachable states for one compiled expression"
 					}
-					lines := snap.Roots{{Name: "expr", V: jp}, {Name: "globals", V: globals}}.Lines()
-					c.report(harness.Violation{Kind: "state-mutated", Signature: "expr-state-changes:" + text,
-						Input:    map[string]interface{}{"expression": text, "history": append(append([]int{}, h.hist...), di), "document": d},
-						Expected: "searching does not change the compiled expression or package-level state",
-						Observed: "new state after the call: " + strings.Join(snap.Diff(baseLines, lines), "; ")})
+					if states == 2 {
+						// not a violation by itself (a benign cache would do this too): the new state
+						// is explored like any other; what it contains is recorded for the evidence
+						lines := snap.Roots{{Name: "expr", V: jp}, {Name: "globals", V: globals}}.Lines()
+						c.add("expressions_with_more_than_one_state", 1)
+						if len(c.res.Notes) < 6 {
+							c.res.Notes["state_change:"+text] = strings.Join(snap.Diff(baseLines, lines), "; ")
+						}
+					}
 				}
 			}
 		}
